@@ -30,6 +30,7 @@ func runC02(r *fw.Run, p *fw.Program) {
 	if c == nil {
 		return
 	}
+	c02DebugDump(p)
 	c.family()
 	c.scalarFn()
 	c.encodings()
